@@ -3,6 +3,7 @@ import copy, json, os, re
 import xml.etree.ElementTree as ET
 import vlib
 from checks import textcommon as tc
+from checks import shapes
 
 REFENV = {"REF_FILE": os.path.join(vlib.SPEC, "ref", "registry.ref.json")}
 
@@ -14,6 +15,8 @@ def run(ctx):
     part_items(ctx, judge, cov)
     part_messages(ctx, judge, cov)
     part_vectors(ctx, judge, cov, step=1 if thorough else 4)
+    rows, bases, _ = shapes.replay(ctx, want_keeps="same")
+    cov["alternative_notation_documents"] = shapes.judge_c04(ctx, rows, bases)
     rejected, npairs = judge.decide(ctx)
     for pair, wheres in rejected:
         a, b = pair["a"], pair["b"]
@@ -28,7 +31,7 @@ def run(ctx):
                 "(rendered with python integers), the library's decoding of each document and of every foreign form of the same value must re-encode to the same binary. "
                 "(B) the XML, JSON and binary documents of every message of C01's message space are parsed independently and compared as trees (names against numbers are judged by TLC with the pinned registry). "
                 "(C) every request / response of the OASIS vectors of supported operations is decoded and re-encoded; the vector's own XML tree, the re-encoded XML, JSON and binary trees must have the same "
-                "elements in the same order with equivalent values; variations replace values by equivalent forms (hexadecimal enumerations and masks, other time zones) and text by markup / unicode classes",
+                "elements in the same order with equivalent values; variations replace values by equivalent forms (hexadecimal enumerations and masks, other time zones) and text by markup / unicode classes. (D) the mutations of TextShapes.tla that keep a document a conformant notation of the same message (tag given in hexadecimal, members reordered, comments / processing instructions, character references, single-quoted attributes, XML declaration) must decode to the same binary",
         "exhaustive": True, **cov,
     }, assumptions=["text strings are covered by 20 classes, not all of Unicode; classes that XML 1.0 cannot carry (C0 controls, U+FFFE/U+FFFF) are exercised for JSON only",
                     "dates at the edges of years 1..9999 are written in UTC only",
